@@ -32,7 +32,7 @@ uint32_t seg_len[MAXSEG]; uint64_t seg_idx[MAXSEG][MAXPTS]; uint32_t nseg;
 int64_t Qs[MAXPTS], Qs_tmp[MAXPTS]; uint64_t qs_len, tmp_len; uint64_t curve_len; int64_t curve_last;
 int raised, overflow;
 uint64_t N;
-#define REC(e) { uint64_t _e=(e); __CPROVER_assert(_e < N, "P1 trajectory index in bounds"); if(!(_e<N)){ overflow=1; return 0; } \
+#define REC(e) { uint64_t _e=(e); __CPROVER_assert(_e < N, "P1 input element index in bounds"); if(!(_e<N)){ overflow=1; return 0; } \
    __CPROVER_assert(nseg>0 && seg_len[nseg-1] < MAXPTS, "P8 window size within bound"); if(!(nseg>0 && seg_len[nseg-1]<MAXPTS)){ overflow=1; return 0; } seg_idx[nseg-1][seg_len[nseg-1]++]=_e; }
 #define NEWSEG() { __CPROVER_assert(nseg < MAXSEG, "window count within bound"); if(!(nseg<MAXSEG)){ overflow=1; return 0; } seg_len[nseg]=0; nseg++; }
 #define CHECK(c) if(!(c)){ raised=1; return 0; }
@@ -77,6 +77,8 @@ def slice_to_c(repo):
     b = re.sub(r'Qs\s*=\s*Qs_tmp\s*;', 'for(uint64_t _c=0;_c<tmp_len;++_c) Qs[_c]=Qs_tmp[_c]; qs_len=tmp_len;', b)
     b = re.sub(r'Qs_tmp\.clear\(\)\s*;', 'tmp_len=0;', b)
     b = re.sub(r'curve\.push_back\(\s*Qs\[0\]\s*\)\s*;', '{ __CPROVER_assert(qs_len>0, "P1 Qs[0] exists"); if(!(qs_len>0)){overflow=1; return 0;} curve_last=Qs[0]; curve_len++; seg_count++; }', b)
+    # a curve point taken directly from the input trajectory by index
+    b = re.sub(r'curve\.push_back\(\s*trajectory\[(.*?)\]\s*\)\s*;', lambda m: '{ __CPROVER_assert((uint64_t)(%s) < N, "P1 input element index in bounds"); if(!((uint64_t)(%s) < N)){overflow=1; return 0;} curve_last=(int64_t)(%s); curve_len++; seg_count++; }' % (m.group(1), m.group(1), m.group(1)), b, flags=re.S)
     b = b.replace('Qs.size()', 'qs_len').replace('segments_control_points.size()', 'nseg').replace('trajectory.size()', 'N')
     b = re.sub(r'return\s+curve\s*;', 'return 1;', b)
     # floating point: the two places where doubles carry small integers are rewritten to exact integer arithmetic
